@@ -230,6 +230,12 @@ func Run(o *drv.Out) {
 				powers[i] = uint64(1 + r.Intn(1000))
 			}
 		}
+		// the first cases are small committees at the arithmetic edges of the threshold: total power
+		// congruent to 0, 1 and 2 mod 3, where floor(2T/3)+1 and other plausible formulas differ
+		if boundary := [][]uint64{{2, 2, 1}, {1, 1, 1}, {2, 1, 1}, {1, 1}, {3, 3, 2}, {5, 4, 3, 2}, {7, 7, 7, 1, 1}, {1}}; ci < len(boundary) {
+			powers = boundary[ci]
+			nm = len(powers)
+		}
 		perm := r.Perm(len(keys))
 		ks := make([]crypto.PrivateKeyI, nm)
 		for i := range ks {
@@ -284,10 +290,40 @@ func Run(o *drv.Out) {
 			signCom := com
 			// deviations applied BEFORE signing (honest signers sign the deviated content: still "correctly bound")
 			// and AFTER signing (re-targeting). Choose by variant.
-			dev := r.Intn(26)
+			dev := r.Intn(28)
 			dupHeader := false
 			if v == 0 {
 				dev = -1 // the valid pair itself
+			}
+			if v == 2 {
+				dev = 26 // always: signed power exactly one unit below the threshold, when a subset reaches it
+			}
+			if v == 3 {
+				dev = 27 // always: signed power exactly the threshold (must commit)
+			}
+			// exact: a signer subset whose power sums to exactly `want` (brute force for small committees)
+			exact := func(want uint64) ([]int, bool) {
+				if nm > 17 {
+					return nil, false
+				}
+				for mask := 1; mask < 1<<uint(nm); mask++ {
+					var s uint64
+					for i := 0; i < nm; i++ {
+						if mask&(1<<uint(i)) != 0 {
+							s += powers[i]
+						}
+					}
+					if s == want {
+						var out []int
+						for i := 0; i < nm; i++ {
+							if mask&(1<<uint(i)) != 0 {
+								out = append(out, i)
+							}
+						}
+						return out, true
+					}
+				}
+				return nil, false
 			}
 			if v == 1 {
 				dev = 25 // always: the leader's PROPOSE_VOTE justification re-labelled as a commit certificate
@@ -309,6 +345,20 @@ func Run(o *drv.Out) {
 				case 1:
 					view.Phase = lib.Phase(r.Intn(9))
 					notes = append(notes, "phase")
+				case 26:
+					if sub, ok := exact(maj - 1); ok && maj > 1 {
+						idxs = sub
+						notes = append(notes, "exactly-one-below-threshold")
+					} else {
+						notes = append(notes, "no-subset-one-below-threshold")
+					}
+				case 27:
+					if sub, ok := exact(maj); ok {
+						idxs = sub
+						notes = append(notes, "exactly-at-threshold")
+					} else {
+						notes = append(notes, "no-subset-at-threshold")
+					}
 				case 25:
 					// the honest +2/3 PROPOSE_VOTE certificate every replica sees as the justification of the
 					// leader's PRECOMMIT message; applyPost re-labels it PRECOMMIT_VOTE after signing
